@@ -1500,3 +1500,48 @@ def polynomial_tables(P, rep, rule="EXPR.poly"):
             else:
                 rep.ok(rule, "%s: sum over %s" % (F.qn.replace("WorldBuilder::Features::", ""), table), F.nloc(L), F.qn)
     rep.floor(rule, n, 6, "polynomial sums in the tian2019 models")
+
+
+# ------------------------------------------------------------------------------------------------
+def blend_identity(P, rep, rule="FOLD.blend"):
+    """a line feature whose two sections give the same value hands that value on unchanged"""
+    from .segments import LINE
+    rep.rule(rule, "in SubductingPlate / Fault::properties every value blended between the current and the next section comes back unchanged when "
+                   "both sections give the same value (in particular when neither has a model of that kind and both are the incoming value): "
+                   "cur + f*(next - cur) is cur for next = cur; a blend through quat_cast / slerp / mat3_cast is not the identity (a zero matrix "
+                   "becomes the identity matrix, a rotation picks up round-off) unless equal orientations are kept by a guard in front of it")
+    n = 0
+    for name, cls in LINE.items():
+        F = P.func(cls + "::properties")
+        for y in F.walk(F.body):
+            if not (y.get("k") in ("BinaryOperator", "CXXOperatorCallExpr") and y.get("op") == "="):
+                continue
+            kids = [x for x in y["c"] if x is not None]
+            rhs = kids[-1]
+            calls = [z for z in F.walk(rhs) if z.get("k") == "CallExpr" and z.get("callee") and (P.d(z["callee"]).get("qn") or "").endswith("quaternion::mat3_cast")]
+            if not calls:
+                continue
+            n += 1
+            # a guard that keeps equal orientations: the statement is control dependent on a comparison of two rotation matrices having failed
+            guarded = False
+            for a in F.ancestors(y):
+                if a.get("k") == "IfStmt":
+                    t = norm.render(P, a["c"][0], nocast=True)
+                    if "rotation_matrices" in t and ("==" in t or "!=" in t):
+                        guarded = True
+            loop = astq.enclosing(F, y, ("ForStmt",))
+            if loop is not None and not guarded:
+                for st in astq.stmts_of(loop["c"][3]):
+                    if st is y or any(z is y for z in F.walk(st)):
+                        break
+                    if st.get("k") == "IfStmt" and "rotation_matrices" in norm.render(P, st["c"][0], nocast=True) and \
+                            any(z.get("k") in ("ContinueStmt",) for z in F.walk(st["c"][1])):
+                        guarded = True
+            if guarded:
+                rep.ok(rule, "%s: orientations are blended through quaternions only when they differ" % name, F.nloc(y), F.qn)
+            else:
+                rep.violation(rule, "%s::properties: grain orientations are always passed through quat_cast / slerp / mat3_cast" % name, F.nloc(y), F.qn,
+                              norm.render(P, y)[:140], "inside a %s whose sections have no grains models (or equal ones) the incoming orientation is not handed on unchanged: "
+                              "an unset (zero) matrix becomes the identity matrix" % name.lower(), key="%s|%s|orientation" % (rule, cls),
+                              witness="a plate without grains models crossed by a %s without grains models, grains requested inside it" % name.lower())
+    rep.floor(rule, n, 2, "orientation blends in line features")
